@@ -218,7 +218,7 @@ func TestC15(t *testing.T) {
 					}
 				case "sigkill":
 					// the plugin dies abruptly: it cannot remove its socket file
-					syscall.Kill(pid, syscall.SIGKILL)
+					killOurs(pid, syscall.SIGKILL)
 					waitState(pid, 5*time.Second, "gone", "Z")
 					for i := 0; i < 300 && !clients[0].c.Exited(); i++ {
 						time.Sleep(10 * time.Millisecond)
